@@ -537,6 +537,46 @@ def readF (f : FileM α) (names : List Bytes) : ReadRes α :=
         | .ok (vs, false) => let r := go rest; ⟨(.geom g :: vs) :: r.rows, r.panicked, r.err⟩
   go f.rows
 
+/-- one reading call on a decoder: `DecodeRow(&struct)` or `DecodeRowFields(names...)` -/
+inductive Call where
+  | s (sfs : List SField)
+  | f (names : List Bytes)
+deriving Inhabited
+
+/-- A reading schedule on ONE `Decoder`: the `i`-th record is read with call `calls[i mod len]` (any mix of
+`DecodeRow` and `DecodeRowFields`, any field list per row, also none).
+The decoder keeps TWO cursors, both explicit here: the go-shp reader's position in the `.shp` (the list
+being consumed: `r.Next()`/`r.Shape()`) and the decoder's own `r.row`, the row `ReadAttribute(r.row, ·)`
+reads. Both calls end with `r.row++` for every decoded record, whatever fields were requested
+(`DecodeRowFields` returns early — without `r.row++` — only when a requested name is not a column, which
+also records the error the loop stops on). -/
+def readM (zero : α) (f : FileM α) (calls : List Call) : ReadRes α :=
+  let keys := fileKeys f.fields
+  let rec go : List (Shape α × List Bytes) → Nat → Nat → ReadRes α
+    | [], _, _ => ⟨[], false, false⟩
+    | (sh, _) :: rest, row, i =>
+      match calls[i % calls.length]? with
+      | none => ⟨[], false, false⟩
+      | some call =>
+        match shp2Geom sh with
+        | .error _ => ⟨[], true, false⟩
+        | .ok g =>
+          match f.rows[row]? with          -- the attribute row the decoder's own cursor points at
+          | none => ⟨[], true, false⟩
+          | some (_, cells) =>
+            match call with
+            | .s sfs =>
+              match decodeFields zero keys g cells sfs with
+              | (none, e) => ⟨[], true, e⟩
+              | (some vs, true) => ⟨[vs], false, true⟩
+              | (some vs, false) => let r := go rest (row + 1) (i + 1); ⟨vs :: r.rows, r.panicked, r.err⟩
+            | .f names =>
+              match rowFields keys cells names with
+              | .error _ => ⟨[], true, false⟩
+              | .ok (vs, true) => ⟨[.geom g :: vs], false, true⟩
+              | .ok (vs, false) => let r := go rest (row + 1) (i + 1); ⟨(.geom g :: vs) :: r.rows, r.panicked, r.err⟩
+  go f.rows 0 0
+
 end read
 
 end GeomV.C16
